@@ -28,7 +28,7 @@ func Intrinsic(data []byte, creation bool) uint64 {
 
 // TxKinds lists the transaction classes DrawTx produces.
 var TxKinds = []string{"transfer", "transfer-new", "transfer-precompile", "store-set", "store-clear", "multistore", "multiclear", "emit",
-	"reverter", "oog", "invalid", "forward", "forward-nested", "creator", "create", "create-failing", "suicide", "recursor", "bouncer", "random-code"}
+	"reverter", "oog", "invalid", "forward", "forward-nested", "creator", "create", "create-failing", "suicide", "recursor", "bouncer", "random-code", "call-then-fail"}
 
 // TxCtx is what the transaction generator may look at.
 type TxCtx struct {
@@ -186,6 +186,11 @@ func DrawTx(t *rapid.T, c TxCtx) (*types.Transaction, string) {
 		data = drawInner(t, *to)
 		value = smallValue()
 		extra += 30000
+	case "call-then-fail":
+		target := rapid.SampledFrom([]common.Address{AddrSuicide, AddrSuicide2, AddrStore, AddrCreator, AddrBouncer, AddrEmit}).Draw(t, "cftarget")
+		to, data = addr(AddrCallFail), Cat(WordAddr(target), WordBig(smallValue()), drawInner(t, target))
+		value = smallValue()
+		extra += 150000
 	case "recursor":
 		to = addr(AddrRecursor)
 		extra += 150000
